@@ -82,12 +82,15 @@ def run(chk):
             all(a[0] < b[0] for a, b in zip(rec["eg"], rec["eg"][1:]))
 
     base = next((rec for rec in recs if ascending(rec)), None)
-    if base is None:
-        raise MachineryError("no accepted export of an ascending grid to corrupt")
+    if base is None:   # nothing was written (every export refused or crashed): corrupt a synthetic clean record
+        base = {"eg": [[1, 3], [2, 3]], "tgt": False, "outcome": "written", "exc": "", "xs": [1, 2, 3], "tx": [1, 2, 3],
+                "info": {"qmin": 1, "qmax": 2, "xmin": 1, "xmax": 3, "alphaQs": [1, 2], "members": 1},
+                "blocks": [{"qs": [1, 2], "xs": [1, 2, 3]}], "files": 1, "gridsSame": True, "flavorsOk": True,
+                "valCls": 0, "alphaCls": 0, "reloadCls": 0}
     c = [copy.deepcopy(base) for _ in range(5)]
     c[0]["info"]["qmin"] = c[0]["info"]["qmax"] + 1
     c[1]["valCls"] = 2
-    c[2]["info"]["members"] += 1
+    c[2]["info"]["members"] = c[2]["files"] + 1
     c[3]["blocks"][0]["qs"] = list(reversed(c[3]["blocks"][0]["qs"])) + [9]
     c[4]["alphaCls"] = 2
     expect = ["C45:qmin-qmax-not-min-max-of-written-q", "C45:block-values-differ-from-applied-pdf", "C45:num-members",
